@@ -292,6 +292,8 @@ func c07() {
 			}
 		}
 	})
+	// (4) acceptance at the size limit
+	c07SizeLimit(run, ts)
 	for k, v := range byKind {
 		run.Count("defect:"+k, v)
 	}
@@ -300,11 +302,12 @@ func c07() {
 	}
 	run.Assume("defects are injected one at a time into accepted base policies from the mixed profile",
 		"entries with an empty condition list and unnamed group actions are outside the property and never generated as expected rejections",
-		"a rejected defect-free policy is judged only when its estimated size is far below 4096 instructions")
+		"a rejected defect-free policy is judged only when its estimated size is far below 4096 instructions, or (size-limit families) when the running compiler's own observed growth per entry, regular over the last 20 entries and on a smaller base, predicts at most 4096 instructions")
 	if run.Violations() == 0 {
 		for _, k := range []string{"unknown-default-action", "no-groups", "unknown-name", "duplicate-name", "conditional-and-unconditional", "argument-index", "unknown-operation"} {
 			run.Require("defect:"+k, 10)
 		}
+		run.Require("policies_of_exactly_4096_instructions_accepted", 1)
 		for _, k := range []string{"only", "first", "middle", "last"} {
 			run.Require("unknown-operation-position:"+k, 1)
 		}
